@@ -13,7 +13,7 @@ static int cb_pick0(int n, int kind) { (void)n; (void)kind; return 0; }
 static int cb_pick(int n, int kind) { return vx_pick(n, kind == 2 ? VX_PREEMPT : VX_DEV); }
 static void cb_fail(const char* what) { vx_fail("%s", what); vx_abort_exec(); }
 
-static void init(void) { g_explore = (int)vx_opt_int("--explore", 0); g_samples = (u8*)malloc(1u << 20); g_dict = (u8*)malloc(1u << 17); g_dict2 = (u8*)malloc(1u << 17); g_c = (u8*)malloc(1u << 17); g_o = (u8*)malloc(1u << 17); }
+static void init(void) { g_explore = (int)vx_opt_int("--explore", 0); g_samples = (u8*)malloc(4u << 20); g_dict = (u8*)malloc(1u << 17); g_dict2 = (u8*)malloc(1u << 17); g_c = (u8*)malloc(1u << 17); g_o = (u8*)malloc(1u << 17); }
 
 static const int COUNTS[] = {11, 0, 1, 2, 5, 40};
 static const int SSIZES[] = {1000, 0, 1, 7, 8, 9, 64};
@@ -21,6 +21,18 @@ static const size_t CAPS[] = {16384, 0, 7, 8, 255, 256, 1024, 112640, 1027, 1638
 static const char* ALG[] = {"fastCover", "trainFromBuffer", "cover", "optimizeCover", "optimizeFastCover", "legacy", "finalizeDictionary", "addEntropyTables"};
 
 /* content classes: 0 shared 32-byte motif + noise, 1 one symbol, 2 two symbols, 3 all samples identical */
+/* content class 4: NW distinct 20-byte words, each repeated 6 times with 6-10 bytes of noise in between, cut into `count` equal samples: more than 10 000
+ * repeated segments that do not merge, so the legacy trainer's segment table (10 000 entries at this capacity) fills up */
+static size_t build_many_segments(int count, int nw) {
+    uint32_t s = 0x9E3779B1u; size_t total = 0; static u8* words; if (!words) words = (u8*)malloc(20 * 20000);
+#define MR() (s = s * 1664525u + 1013904223u, s >> 8)
+    for (int i = 0; i < nw * 20; i++) words[i] = (u8)MR();
+    for (int r = 0; r < 6; r++) for (int w = 0; w < nw; w++) { int noise = 6 + (int)(MR() % 5); memcpy(g_samples + total, words + (size_t)w * 20, 20); total += 20; for (int i = 0; i < noise; i++) g_samples[total++] = (u8)MR(); }
+#undef MR
+    size_t each = total / (size_t)count; for (int i = 0; i < count; i++) g_sizes[i] = each; g_sizes[count - 1] = total - each * (size_t)(count - 1);
+    return total;
+}
+
 static size_t build_samples(int count, int ssize, int content, int varySizes) {
     static const u8 motif[32] = "the quick brown fox jumps over  "; size_t total = 0; uint32_t s = 99;
     for (int i = 0; i < count; i++) {
@@ -52,8 +64,10 @@ static void body(void) {
     static const double SPLIT[] = {0.75, 0.0, 1.0, 0.01, 1.5}; double split = SPLIT[vx_deviate(5)]; unsigned shrink = (unsigned)vx_deviate(2); static const unsigned TH[] = {1, 0, 2}; unsigned threads = TH[vx_deviate(3)];
     int level = vx_deviate(3); level = level == 0 ? 3 : level == 1 ? 19 : -5; unsigned forcedID = vx_deviate(2) ? 77777u : 0;
     if (f == 31 && (alg == 0 || alg == 4)) f = 24;       /* 2^31 counters = 8 GiB: memory, not the algorithm */
+    int manyseg = (int)vx_opt_int("--manyseg", 0);
+    if (manyseg) { count = 64; content = 4; ssize = manyseg; cap = 110 * 1024; if (alg != 5 && alg != 1) { vx_obs_u64(9); return; } }
     vx_label("%s count=%d size=%d content=%d vary=%d cap=%zu k=%u d=%u f=%u accel=%u steps=%u split=%.2f shrink=%u threads=%u level=%d id=%u", ALG[alg], count, ssize, content, vary, cap, k, d, f, accel, steps, split, shrink, threads, level, forcedID);
-    size_t total = build_samples(count, ssize, content, vary);
+    size_t total = manyseg ? build_many_segments(count, manyseg) : build_samples(count, ssize, content, vary);
     /* the trainers get an allocation of exactly the samples' size (and a sizes array of exactly `count` entries), so a read past either end meets a redzone */
     u8* const samples = (u8*)malloc(total ? total : 1); memcpy(samples, g_samples, total);
     size_t* const sizes = (size_t*)malloc(sizeof(size_t) * (size_t)(count ? count : 1)); memcpy(sizes, g_sizes, sizeof(size_t) * (size_t)count);
@@ -81,6 +95,7 @@ static void body(void) {
             if (r > cap) { vx_fail("%s returned %zu > capacity %zu", ALG[alg], r, cap); goto out; }
             for (size_t g = 0; g < 16; g++) if (dst[cap + g] != fillByte) { vx_fail("%s wrote beyond the dictionary capacity", ALG[alg]); goto out; }
         }
+        if (manyseg) { res[1] = res[0]; memcpy(g_dict2, g_dict, cap); break; }      /* 2.7 MB corpus: one run */
         if (threads > 1 && !g_explore) break;          /* determinism is only claimed for single-threaded runs */
         if (threads > 1) break;
     }
